@@ -2,6 +2,7 @@
 Every numeric constant the model needs (rise, phase-jump time, fall times, EOM off-detuning)
 is read from the working tree when the configuration is instantiated, never stored."""
 import math
+import os
 import warnings
 
 from .env import assert_tree
@@ -754,13 +755,47 @@ def switch(depth=2):
     return c
 
 
+def with_prefixes(make, tag, n, seed0, plen=2):
+    """Thorough-tier deepening without the state explosion of one more level: `n` copies of a
+    configuration whose exploration starts after a seeded random prefix of `plen` successful calls
+    (found by running candidates on the real code), each explored to the configuration's depth."""
+    import random
+    from .replay import Runner
+    out = []
+    for j in range(n):
+        rng = random.Random(seed0 * 7919 + j)
+        c = make()
+        run = Runner(c, 1)
+        for k in c.init_calls:
+            run.call(c.calls[k - 1])
+        prefix = []
+        tries = 0
+        while len(prefix) < plen and tries < 200:
+            tries += 1
+            k = rng.randrange(1, len(c.calls) + 1)
+            call = c.calls[k - 1]
+            if call["op"] in ("est", "getdur", "measure", "declare") or call.get("par"):
+                continue
+            if run.call(call)[0] == "ok":
+                prefix.append(k)
+        c.init_calls = list(c.init_calls) + prefix
+        c.name = f"{tag}-p{seed0}x{j}-d{c.max_depth}"
+        c.prefix_seed = (seed0, j)
+        out.append(c)
+    return out
+
+
 def instances(name, tier):
     """The configurations of family `name` for a tier (each with a unique .name tag)."""
+    from .env import seed as _seed0
     quick = tier != "thorough"
     if name == "core":
-        c = core(3 if quick else 4)
-        c.name = f"core-d{c.max_depth}"
-        return [c]
+        c = core(3)
+        c.name = "core-d3"
+        if quick:
+            return [c]
+        # depth 4 would be 2.3 M states: depth 3 from 12 seeded 2-call prefixes instead
+        return [c] + with_prefixes(lambda: core(3), "core", 12, _seed0())
     if name == "limits":
         a = limits(2)
         a.name = "limits-d2"
@@ -770,19 +805,21 @@ def instances(name, tier):
         v.name = "limits-virtual-d2"
         return [a, b, v]
     if name == "retarget":
-        c = retarget(3 if quick else 4, full=not quick)
-        c.name = f"retarget-d{c.max_depth}"
-        return [c]
+        c = retarget(3, full=not quick)
+        c.name = "retarget-d3" if quick else "retarget-full-d3"
+        if quick:
+            return [c]
+        d = retarget(4, full=False)
+        d.name = "retarget-d4"
+        return [c, d]
     if name == "fine":
         a = fine(3)
         a.name = "fine-d3"
-        b = fine(3 if quick else 4, seeded=True)
-        b.name = f"fine-seeded-d{b.max_depth}"
+        b = fine(3, seeded=True)
+        b.name = "fine-seeded-d3"
         if quick:
             return [a, b]
-        a = fine(4)
-        a.name = "fine-d4"
-        return [a, b]
+        return [a, b] + with_prefixes(lambda: fine(3), "fine", 8, _seed0())
     if name == "switch":
         c = switch(2 if quick else 3)
         c.name = f"switch-d{c.max_depth}"
@@ -790,21 +827,26 @@ def instances(name, tier):
     if name == "rel":
         out = []
         for fam in ("core", "eom", "render", "template", "typestate"):
-            for c in instances(fam, tier):
+            for c in instances(fam, "quick"):
                 if c.name.startswith(("render_eom", "render_ising_dmmfirst")):
                     continue
                 if quick and fam in ("core", "typestate"):
                     c.max_depth = 2
                     c.name = c.name.rsplit("-d", 1)[0] + "-d2"
+                if not quick and fam in ("eom", "render"):
+                    c.max_depth = 4
+                    c.name = c.name.rsplit("-d", 1)[0] + "-d4"
                 c.name = "rel_" + c.name
                 c.render = False
                 c.relations = True
                 out.append(c)
         return out
     if name == "template":
-        c = template(3 if quick else 4)
-        c.name = f"template-d{c.max_depth}"
-        return [c]
+        c = template(3)
+        c.name = "template-d3"
+        if quick:
+            return [c]
+        return [c] + with_prefixes(lambda: template(3), "template", 5, _seed0())
     if name == "ham":
         out = []
         for c in instances("render", tier):
@@ -823,17 +865,24 @@ def instances(name, tier):
         a2.name = "render_ising_dmmfirst-d3"
         out = [a, a2, b]
         for buf in (None, 240):
-            c = eom(3 if quick else 4, custom_buf=buf)
-            c.name = f"render_eom-b{buf or 0}-d{c.max_depth}"
+            c = eom(3, custom_buf=buf)
+            c.name = f"render_eom-b{buf or 0}-d3"
             c.render = True
             out.append(c)
+            if not quick:
+                for pc in with_prefixes(lambda: eom(3, custom_buf=buf), f"render_eom-b{buf or 0}", 3, _seed0()):
+                    pc.render = True
+                    out.append(pc)
         return out
     if name == "phases":
-        a = phases(3 if quick else 4)
-        a.name = f"phases-exact-d{a.max_depth}"
-        b = phases(3 if quick else 4, wrap=True)
-        b.name = f"phases-wrap-d{b.max_depth}"
-        return [a, b]
+        a = phases(3)
+        a.name = "phases-exact-d3"
+        b = phases(3, wrap=True)
+        b.name = "phases-wrap-d3"
+        if quick:
+            return [a, b]
+        return [a, b] + with_prefixes(lambda: phases(3), "phases-exact", 4, _seed0()) \
+            + with_prefixes(lambda: phases(3, wrap=True), "phases-wrap", 4, _seed0())
     if name == "phasejump":
         c = phasejump(3 if quick else 4)
         c.name = f"{name}-d{c.max_depth}"
@@ -848,15 +897,20 @@ def instances(name, tier):
             out.append(c)
         return out
     if name == "typestate":
-        c = typestate(3 if quick else 4)
-        c.name = f"typestate-d{c.max_depth}"
-        return [c]
+        c = typestate(3)
+        c.name = "typestate-d3"
+        if quick:
+            return [c]
+        return [c] + with_prefixes(lambda: typestate(3), "typestate", 6, _seed0())
     if name == "eomdrift":
         out = []
         for buf in (None, 240):
-            c = eom(3 if quick else 4, custom_buf=buf, micro=True)
-            c.name = f"eomdrift-b{buf or 0}-d{c.max_depth}"
+            c = eom(3, custom_buf=buf, micro=True)
+            c.name = f"eomdrift-b{buf or 0}-d3"
             out.append(c)
+            if not quick:
+                out += with_prefixes(lambda: eom(3, custom_buf=buf, micro=True), f"eomdrift-b{buf or 0}", 4,
+                                     _seed0())
         return out
     if name == "eom":
         out = []
@@ -870,6 +924,18 @@ def instances(name, tier):
 
 def by_tag(tag):
     fam = tag.split("-")[0]
+    if "-p" in tag and "x" in tag.split("-p")[-1]:
+        sd, j = tag.split("-p")[-1].split("-d")[0].split("x")
+        os.environ["VERIF_SEED"] = sd
+        fams = [fam, "render", "eomdrift", "phases"]
+        for f in fams:
+            try:
+                for c in instances(f.split("_")[0] if f.startswith("render_") else f, "thorough"):
+                    if c.name == tag:
+                        return c
+            except KeyError:
+                pass
+        raise KeyError(tag)
     if tag.startswith("rel_"):
         for tier in ("quick", "thorough"):
             for c in instances("rel", tier):
